@@ -59,6 +59,11 @@ def run_units(spec, units, seed=0):
     p = explore.pool()
     for st in p.imap_unordered(_unit, [(spec, u) for u in units], chunksize=1):
         total.merge(st)
+        if explore._should_stop(total):
+            p.terminate()
+            explore._pool = None
+            total.extra["stopped_early"] = 1
+            break
     return total
 
 
@@ -74,7 +79,9 @@ def fold(rep, name, st, exhaustive=True):
     for s in st.samples:
         if len(cov["samples"]) < 8:
             cov["samples"].append(s)
-    if exhaustive:
+    if st.extra.get("stopped_early"):
+        cov["exhaustive"] = False
+    elif exhaustive:
         cov.setdefault("exhaustive", True)
     else:
         cov["exhaustive"] = False
